@@ -566,8 +566,9 @@ class AnsiString:
               are not internally modified after creation.
         '''
         if isinstance(val, int):
-            st = val
-            en = val + 1
+            # Negative index counts from the end (out-of-range is caught by the str lookup below)
+            st = val if val >= 0 else len(self._s) + val
+            en = st + 1
         elif isinstance(val, slice):
             if val.step is not None and val.step != 1:
                 raise ValueError('Step other than 1 not supported')
